@@ -209,6 +209,8 @@ def run(ctx):
     for p in PREFS:      # the real client's own installation path, three consecutive runs per preference
         kops += ["k install %s noagent" % p, "k install %s agent" % p, "k install %s planted" % p]
         # … and against an agent that fails one request of the first attempt of each later run (the retry finds it healthy)
+        # (one op per fault: a later healthy run would repair what a faulty one left)
+        kops += ["k install %s flaky:%s+ok" % (p, w) for w in FLAKY_FIRST]
         kops.append("k install %s flaky:%s" % (p, ",".join(w + "+ok" for w in FLAKY_FIRST)))
     kops.append("k genkeypair")
     if not q:
